@@ -314,17 +314,23 @@ def run(ck):
     return ck.finish(
         rule="random stream configurations (H.264 with random SPS/PPS, H.265 with real and rejected VPS/SPS/PPS, with/without AAC) "
              "and frame lists (video/audio/ignored kinds, NAL types biased to IDR/IRAP and parameter sets, sizes 1 B..70 KB, "
+             "H.265 VPS/SPS pairs emitted by the Gallina encoder from random field values (sub-layers 0..6, sub-layer profile/level "
+             "flags, Main/Main10/RExt and other profile_idc, 4:0:0..4:4:4, bit depths 8..15, cropping, VUI timing; coherent and "
+             "deliberately differing VPS/SPS profile_tier_level), meta data taken from the case or derived from the SPS by "
+             "hevc/h264.MetadataIsReady; stream hvcc: the 21 general bytes of HEVCDecoderConfigurationRecord against hvcc_spec of the field values; "
              "time bases around 0, negative, 2^31 and k*2^32 ms, PTS<DTS and +-2^23 composition offsets, audio up to 100 ms older "
              "than the preceding video) pushed through flv.NewMuxer into flv.Writer, either straight or as a client joining at a "
              "random media tag with restamped configuration tags; full byte stream compared with the extracted model modulo the "
              "20-byte wall-clock creation date; oracle = independent FLV/AMF0 reader + faithfulness checks on the implementation's "
              "bytes; a separate malformed stream (empty payloads, SPS shorter than 4 bytes / missing PPS or VPS: frames dropped, nothing written); D17 witnesses; float64(int) and AMF0 "
              "script data against Go directly. non-trivial = at least three media tags reach the client",
-        trusted=["H.265: the 21 general hvcC bytes (profile/tier/level, chroma, bit depths, sub-layers) are taken from the "
-                 "implementation's own VPS/SPS decoder (oracle input); reserved bits, lengthSizeMinusOne and the three arrays are checked",
+        trusted=["H.265/H.264 parameter-set syntax: the C15 descriptions (std_h265_vps/sps, go_h265_vps/sps, std_h264_sps) and their "
+                 "proved emit/parse round trips and refinement; the expected hvcC general fields and meta data are computed from "
+                 "the field values by the model, never by the Go parser",
                  "the muxer goroutine is observed to quiescence through the verifhook schedule point worker.pop (id 2) / its panic log line",
                  "creation date string: any string accepted (wall clock)"],
         assumptions=["NAL payload < 2^24-9 bytes (FLV DataSize is 24 bits)", "SPS/PPS/VPS < 65536 bytes; H.264 SPS >= 4 bytes",
                      "|decode time - client's first media tag| < 2^31 ms (24.8 days) for the rebased timestamp to be exact",
                      "|PTS-DTS| < 2^23 ms for the composition offset", "AAC frames carry Pts = Dts",
-                     "integer metadata |n| < 2^53"])
+                     "integer metadata |n| < 2^53",
+                     "hvcC: bit_depth_minus8 <= 7 (3-bit fields of the record), at most 7 temporal layers; SPS without inter-RPS prediction (D30, C15)"])
